@@ -248,6 +248,20 @@ impl Elem for f64 {
     fn get(self) -> u64 { self as u64 }
 }
 
+/// An element wider than its alignment (16 bytes, aligned to 8) -- the shape of the string views inside `&[DiplomatStrSlice]`.
+/// Borrowed buffers of it are placed at addresses that are a multiple of the alignment but NOT of the size.
+#[repr(C)]
+#[derive(Copy, Clone, PartialEq, Debug)]
+pub struct View16 {
+    p: u64,
+    l: u64,
+}
+impl Elem for View16 {
+    const NAME: &'static str = "view16";
+    fn mk(v: u64) -> Self { View16 { p: v, l: !v } }
+    fn get(self) -> u64 { if self.l == !self.p { self.p } else { u64::MAX } }
+}
+
 #[derive(Debug)]
 struct Seen {
     ptr: &'static str, // "null" | "dangling" | "A" | "other"
@@ -312,6 +326,7 @@ fn run_views_inner<T: Elem>(beh: &[Value]) -> Option<Value> {
     track::reset();
     unsafe { BASE = (0, 0, 0); }
     let mut backing: Option<Vec<T>> = None; // owner of borrowed data
+    let mut backing_words: Option<Vec<u64>> = None; // owner of borrowed data placed off the element size
     let mut held: Held<T> = Held::None;
     let mut orig: *const T = core::ptr::null();
     let mut slot: Option<usize> = None;
@@ -331,6 +346,26 @@ fn run_views_inner<T: Elem>(beh: &[Value]) -> Option<Value> {
                         let n = ev["n"].as_u64().unwrap() as usize;
                         let data: Vec<T> = (1..=n as u64).map(|j| T::mk(64 + j)).collect();
                         match k {
+                            "imm" | "mut" if core::mem::size_of::<T>() > core::mem::align_of::<T>() => {
+                                // valid alignment, but not a multiple of the element size (a C stack array, an array behind an 8-byte field)
+                                let (sz, al) = (core::mem::size_of::<T>(), core::mem::align_of::<T>());
+                                let mut w: Vec<u64> = vec![0u64; (n + 2) * sz / 8];
+                                let base = w.as_mut_ptr() as usize;
+                                let p0 = (if base % sz == 0 { base + al } else { base }) as *mut T;
+                                assert!(p0 as usize % al == 0 && p0 as usize % sz != 0);
+                                for (j, x) in data.iter().enumerate() { p0.add(j).write(*x); }
+                                orig = p0;
+                                BASE = (p0 as usize, n, sz);
+                                if n > 0 {
+                                    slot = Some(track::watch(w.as_ptr()));
+                                }
+                                let p: *mut [T] = match ev.get("sub").and_then(|x| x.as_u64()) {
+                                    Some(m) => { orig = p0.add(1); core::ptr::slice_from_raw_parts_mut(p0.add(1), m as usize) }
+                                    None => core::ptr::slice_from_raw_parts_mut(p0, n),
+                                };
+                                backing_words = Some(w);
+                                held = if k == "imm" { Held::RustImm(p as *const [T]) } else { Held::RustMut(p) };
+                            }
                             "imm" | "mut" | "str" => {
                                 let mut v = data;
                                 v.shrink_to_fit();
@@ -487,6 +522,7 @@ fn run_views_inner<T: Elem>(beh: &[Value]) -> Option<Value> {
                         held = Held::None; // drops Box / owned view; borrowed kinds hold raw pointers only
                         if op == "EndBorrow" {
                             backing = None;
+                            backing_words = None;
                         }
                         Ok(None)
                     }
@@ -521,6 +557,7 @@ fn run_views_inner<T: Elem>(beh: &[Value]) -> Option<Value> {
         }
     }
     drop(backing);
+    drop(backing_words);
     if let Some(s) = slot {
         if track::frees(s) != 1 {
             return Some(json!({"step": beh.len(), "what": "allocation not released exactly once at the end", "frees": track::frees(s)}));
@@ -581,7 +618,7 @@ pub fn views(args: &[String]) -> i32 {
             }
         }
     )* } }
-    each!(u8, i8, u16, i16, u32, i32, u64, i64, usize, isize, f32, f64);
+    each!(u8, i8, u16, i16, u32, i32, u64, i64, usize, isize, f32, f64, View16);
     out.finish();
     println!("{}", json!({"replayed": n, "mismatches": bad}));
     0
